@@ -23,6 +23,7 @@ PROP = dict(
         dict(name="machine", pkg="c15", run="^TestC15_Machine$", shards=HASHES, checks=(30000, 400000), seeds=(2, 4)),
         dict(name="rejected", pkg="c15", run="^TestC15_RejectedBinding$", checks=(5000, 100000)),
         dict(name="dupnames", pkg="c15", run="^TestC15_DuplicateNames$", checks=(5000, 50000)),
+        dict(name="bursts", pkg="c15", run="^TestC15_Bursts$", rapid=False, shards=HASHES),
         dict(name="regress", pkg="c15", run="^TestC15_(Anchor|Regress.*)$", rapid=False),
     ],
 )
